@@ -446,8 +446,14 @@ fn event_order(kinds: u16) -> (bool, bool, bool, bool, usize) {
         REPLY_DATA = kani::any();
         NEV = 0;
     }
-    let mut bus = SerialSignBus {
-        port: KPort { settings: any_settings(), timeout: None, fail_read_settings: false, fail_write_settings: false, fail_set_timeout: false, calls: Cell::new([0; 6]), ncalls: Cell::new(0) },
+    // built through the public constructor (not a struct literal), so that a bus with additional private fields still
+    // compiles; the port set-up it performs is the subject of C20
+    let mut bus = match SerialSignBus::try_new(KPort { settings: any_settings(), timeout: None, fail_read_settings: false, fail_write_settings: false, fail_set_timeout: false, calls: Cell::new([0; 6]), ncalls: Cell::new(0) }) {
+        Ok(b) => b,
+        Err(e) => {
+            core::mem::forget(e);
+            panic!("try_new on a quiet port")
+        }
     };
     let r = bus.process_message(m);
     let (ev, n, wf, rf) = unsafe { (EVENTS, NEV, WRITE_FAILS, READ_FAILS) };
